@@ -17,7 +17,12 @@ import UF.Model.Shortcut
     model's `Re`;
   * the selection loop is group A's `pickLongest`.
 
-  Validated against the real `findRegexpShortcut` by the op `i2.reshortcut` (harness/op_i2_re.go).
+    (Group P3, REVIEW2 F3: round 2 of `factor` compares leading literals with `Regexp.Equal`, which
+    ignores the fold flag — `itemEq`; when the expression has a source of case-folded literals the
+    answer is given only where `goReq` selects what the replay of Go's parser, `Re.quirkReq`, selects.)
+
+  Validated against the real `findRegexpShortcut` by the ops `i2.reshortcut` (harness/op_i2_re.go,
+  harness/op_quirk.go).
   Domain: ASCII pattern text inside the subset of `parseRE`; `none` otherwise.
 -/
 namespace UF.I2
@@ -223,10 +228,20 @@ def close2 (rec : List (List Item) → List Bytes) (first : Option Item) : List 
     | some f => [.fact f (itemReq f ++ rec (ms.map dropLead))]
     | none => ms
 
+/-- `Regexp.Equal` on leading sub-expressions: two literals are equal when their RUNES are — the
+    fold-case flag is not compared (group P3, REVIEW2 F3: `A.|[aA]` is factored as `A(?:.|(?:))`, so
+    Go's tree requires the literal `A` there). -/
+def itemEq : Item → Item → Bool
+  | .lit a _, .lit b _ => a == b
+  | x, y => x == y
+
 /-- Does the node continue the current run of round 2? -/
 def run2Cond (first : Option Item) (nd : Node) : Bool :=
   match first with
-  | some f => leadingItem nd == some f && itemFactorable f
+  | some f =>
+    (match leadingItem nd with
+     | some i => itemEq f i
+     | none => false) && itemFactorable f
   | none => false
 
 /-- Round 2: runs of adjacent nodes with the same leading character class (or fixed repeat of one). -/
@@ -329,12 +344,12 @@ def altTopReq (branches : List (List Item)) : List Bytes :=
 def baseKey : Re → Option (List Nat)
   | .cls neg rs _ =>
     match clsItem neg rs with
-    | .lit [c] f => some [3, c.toNat, if f then 1 else 0]
+    | .lit [c] _ => some [3, c.toNat]
     | .other (some (0, k)) _ => some k
     | _ => none
   | .any => some [1]
   | .anyNL => some [2]
-  | .lit [c] f => some [3, c.toNat, if f then 1 else 0]
+  | .lit [c] _ => some [3, c.toNat]
   | _ => none
 
 mutual
@@ -377,6 +392,18 @@ def modelRegexpShortcut (pattern : Bytes) : Option Bytes :=
   else
     match Re.parseCore inner with
     | none => none
-    | some tree => some (pickLongest (regexParts inner) (goReq tree))
+    | some tree =>
+      if tree.hazard then
+        -- (group P3) the expression has a source of case-folded literals next to case-sensitive ones:
+        -- `parser.factor` may regroup what round 1 has factored (`A.|[aA]b|[aA]` is `A(?:.|b|(?:))`),
+        -- which the flat `Node`s of `goReq` do not follow.  Answer only where `goReq` selects what the
+        -- replay of Go's parser (`quirkReq`, UF/Model/RegexQuirk.lean) selects.
+        match tree.quirkReq with
+        | some req =>
+          if pickLongest (regexParts inner) req == pickLongest (regexParts inner) (goReq tree) then
+            some (pickLongest (regexParts inner) (goReq tree))
+          else none
+        | none => none
+      else some (pickLongest (regexParts inner) (goReq tree))
 
 end UF.I2
